@@ -237,6 +237,10 @@ class Ref:
                         self.tags.add('oneof.candidate-none')
                     return r
                 self.maybe |= fr
+                if any(isinstance(c_, tuple) and c_[0] == 'fatal' for c_ in r[1]):
+                    # a BaseException outside Exception is not a candidate failure: it propagates
+                    self.tags.add('oneof.fatal-propagates')
+                    return ('fail', frozenset(c_ for c_ in r[1] if isinstance(c_, tuple) and c_[0] == 'fatal'))
                 self.tags.add('oneof.candidate-failed')
                 common = set(r[1]) if common is None else (common & set(r[1]))
             self.tags.add('oneof.all-failed')
